@@ -136,6 +136,10 @@ def run(cx):
     from props.shared import frame_forward_exact, packet_ack_exact
     frame_forward_exact(cx, "C20.h")
     packet_ack_exact(cx, "C20.i")
+    from props.shared import ctor_initial_state
+    ctor_initial_state(cx, "C20.j")
+    from props.C01 import inst_id_arith
+    inst_id_arith(cx, "C20.k")
     with cx.instance("C20.c", "T7 SHAPE", "send_buffer_size forwards PacketSender.total_size under Active and returns 0 otherwise", floor=4) as inst:
         t = R.body(PS + "total_size")
         e = show(t.local_expr(0))
